@@ -84,7 +84,7 @@ def _hs_cases():
                 self = f.construct(P + 'HardSphere:HardSphere', sigma=f.real('sigma') if sig == 'real' else None,
                                    high_value=f.real('high'))
                 return dict(self=self, r=_grid(f, dt))
-            yield 'sigma=%s,r=%s' % (sig, dt), build, ({'history': {'method': 'calculate', 'mutable': ('sigma',)}} if sig == 'real' and dt == 'real' else {})
+            yield 'sigma=%s,r=%s' % (sig, dt), build, ({'history': {'method': 'calculate', 'mutable': ('sigma',), 'other': True}} if sig == 'real' and dt == 'real' else {})
     def build2(f):
         # sigma left unset by the user and filled in later (what PRISM.__init__ does)
         self = f.construct(P + 'HardSphere:HardSphere', high_value=f.real('high'))
@@ -101,7 +101,7 @@ def _exp_cases():
                 self = f.construct(P + 'Exponential:Exponential', epsilon=f.real('eps'), alpha=f.real('alpha', nonzero=True),
                                    sigma=f.real('sigma') if sig == 'real' else None, high_value=f.real('high'))
                 return dict(self=self, r=_grid(f, dt))
-            yield 'sigma=%s,r=%s' % (sig, dt), build, ({'history': {'method': 'calculate', 'mutable': ('sigma',)}} if sig == 'real' and dt == 'real' else {})
+            yield 'sigma=%s,r=%s' % (sig, dt), build, ({'history': {'method': 'calculate', 'mutable': ('sigma',), 'other': True}} if sig == 'real' and dt == 'real' else {})
 
 
 @cases(HardCoreLennardJones_calculate)
@@ -112,7 +112,7 @@ def _hclj_cases():
                 self = f.construct(P + 'HardCoreLennardJones:HardCoreLennardJones', epsilon=f.real('eps'),
                                    sigma=f.real('sigma') if sig == 'real' else None, high_value=f.real('high'))
                 return dict(self=self, r=_grid(f, dt))
-            yield 'sigma=%s,r=%s' % (sig, dt), build, ({'history': {'method': 'calculate', 'mutable': ('sigma',)}} if sig == 'real' and dt == 'real' else {})
+            yield 'sigma=%s,r=%s' % (sig, dt), build, ({'history': {'method': 'calculate', 'mutable': ('sigma',), 'other': True}} if sig == 'real' and dt == 'real' else {})
 
 
 @cases(LennardJones_calculate)
@@ -126,7 +126,7 @@ def _lj_cases():
                                            sigma=f.real('sigma') if sig == 'real' else None,
                                            rcut=f.real('rcut') if rc == 'real' else None, shift=shift)
                         return dict(self=self, r=_grid(f, dt))
-                    yield 'sigma=%s,rcut=%s,shift=%s,r=%s' % (sig, rc, shift, dt), build, ({'history': {'method': 'calculate', 'mutable': ('sigma', 'rcut', 'shift')}} if sig == 'real' and dt == 'real' else {})
+                    yield 'sigma=%s,rcut=%s,shift=%s,r=%s' % (sig, rc, shift, dt), build, ({'history': {'method': 'calculate', 'mutable': ('sigma', 'rcut', 'shift'), 'other': True}} if sig == 'real' and dt == 'real' else {})
 
 
 @cases(WeeksChandlerAndersen_calculate)
@@ -137,7 +137,7 @@ def _wca_cases():
                 self = f.construct(P + 'WeeksChandlerAndersen:WeeksChandlerAndersen', epsilon=f.real('eps'),
                                    sigma=f.real('sigma') if sig == 'real' else None)
                 return dict(self=self, r=_grid(f, dt))
-            yield 'sigma=%s,r=%s' % (sig, dt), build, ({'history': {'method': 'calculate', 'mutable': ('sigma',)}} if sig == 'real' and dt == 'real' else {})
+            yield 'sigma=%s,r=%s' % (sig, dt), build, ({'history': {'method': 'calculate', 'mutable': ('sigma',), 'other': True}} if sig == 'real' and dt == 'real' else {})
     def build_seq(f):
         # sigma re-assigned after an earlier evaluation (sigma sweep on one object)
         self = f.construct(P + 'WeeksChandlerAndersen:WeeksChandlerAndersen', epsilon=f.real('eps'), sigma=f.real('sigma0'))
